@@ -6,6 +6,7 @@ The impl driver (harness/src/bin_zonefile.rs) runs every case in its own thread 
 the driver (reported as DRIVER-DIED for exactly that case).  The oracle accepts only "Ok:..." / "Err:...".
 """
 import os
+import threading
 
 from . import core, tok
 from . import zonefilegen as zg
@@ -186,3 +187,496 @@ def kind(case, model):
     toks = case.split(" ")
     fam = toks[3] if len(toks) > 3 else "?"
     return "%s -> %s" % (fam, model.split("#")[0] if model.startswith("Err:") else model.split(":")[0])
+
+
+# ======================================================================================================
+# extra: the hosts parser and the loader (crates/resolved/src/fs.rs)
+# ======================================================================================================
+#
+# (1) stream "hosts", op P (= Hosts::deserialise; syntax: ocaml/drv_hosts.ml).  The impl driver
+#     (harness/src/bin_hosts.rs -> vthread.rs) runs every case in its own 2 MiB-stack thread under a 60 s
+#     watchdog and flushes per case, exactly as the zonefile driver does.  Every case goes to the real parser;
+#     the extracted model (coq/Hosts/HostsModel.v) is quadratic in the length of a line (stdlib rev in
+#     str_lines, str_slice per field) and in the number of distinct names (association lists), so only the
+#     cases whose estimated model time is under MODEL_BUDGET_S are also given to the model and compared
+#     string for string; the larger ones are compared with the linear python reading of hosts(5) of
+#     vlib/p_c14.py (same mappings / rejected).
+# (2) stream "config", op L (syntax: ocaml/drv_config.ml): files are written to disk and loaded by the real
+#     resolved::fs::load_zone_configuration, here with VERIF_CASE_STACK set so that bin_config.rs also runs
+#     every case in its own 2 MiB-stack thread under the watchdog.  A text is declared unparsable ("Xg") to
+#     the config model only after the parser MODEL (zonefile P / hosts P) returned Err on it.
+
+MODEL_BUDGET_S = {"quick": 3.0, "thorough": 40.0}
+MB_CHARS = {2: ["é", "ü", "ß", "Ж", "\u00a0", "\u0085"],
+            3: ["中", "€", "日", "\u3000", "\u2003", "\ufeff"],
+            4: ["\U0001F600", "\U00010000", "\U0002070E", "\U0010FFFF"]}
+HSTRUCT = list(" \t\n\n#%.:0123456789ab") + ["1.2.3.4", "::1", "fe80::1%eth0", "localhost", "a.b", "\r", "\r\n", "\x00", "\x0b",
+                                               "\x0c", " # ", "10.0.0.1 ", "..", "\n127.0.0.1 "]
+
+
+def hosts_model_seconds(text):
+    """estimated run time of build/model_hosts on `text` (measured on this machine: 16 K characters on one
+    line 1.3 s, 2000 names on one line 0.5 s, 10^4 lines with 300 distinct names 1.3 s, 10^5 lines 4.7 s)"""
+    lines = text.split("\n")
+    sq = fl = names = 0
+    distinct = set()
+    for l in lines:
+        n = len(l)
+        if n > 40:
+            sq += n * n
+        f = l.split("#", 1)[0].split()
+        fl += len(f) * n
+        names += max(0, len(f) - 1)
+        if len(distinct) < 100000:
+            distinct.update(f[1:])
+    return 5e-9 * sq + 5e-8 * fl + 3e-7 * names * max(1, len(distinct)) + 5e-5 * len(lines) + 2e-7 * len(text)
+
+
+def text_tok(s):
+    """tok.text, fast on megabyte texts"""
+    if len(s) < 4096:
+        return tok.text(s)
+    return s.translate({c: "%d," % c for c in set(map(ord, s))})[:-1]
+
+
+def hrand_char(rng):
+    r = rng.random()
+    if r < 0.6:
+        return rng.choice(HSTRUCT)
+    if r < 0.8:
+        return chr(rng.randint(32, 126))
+    if r < 0.92:
+        return chr(rng.choice(ODD))
+    c = rng.randint(0, 0x10ffff)
+    while 0xd800 <= c <= 0xdfff:
+        c = rng.randint(0, 0x10ffff)
+    return chr(c)
+
+
+def hrand_text(rng, n):
+    return "".join(hrand_char(rng) for _ in range(n))
+
+
+def hmutate(rng, t):
+    for _ in range(rng.choice([1, 1, 2, 3, 5])):
+        if not t:
+            t = hrand_text(rng, 3)
+        i = rng.randrange(len(t))
+        r = rng.random()
+        if r < 0.2:
+            t = t[:i] + t[i + 1:]
+        elif r < 0.5:
+            t = t[:i] + rng.choice(["#", "%", "\x00", "\r", "\r\r", "\n", "\r\n", " ", "\t", "\x0b", ".", "..", ":", "::", "é",
+                                     "\U0001F600", " ", "\u00a0", "\u3000", "\ufeff", "256", "1.2.3.4", " 1.2.3.4 ", "-", "*", "\\", "\""]) + t[i:]
+        elif r < 0.6:
+            j = min(len(t), i + rng.randint(1, 40))
+            t = t[:j] + t[i:j] + t[j:]
+        elif r < 0.7:
+            t = t[:i]
+        elif r < 0.8:
+            t = t[:i] + "".join(rng.choice("0123456789") for _ in range(40)) + t[i:]
+        elif r < 0.9:
+            j = min(len(t), i + rng.randint(1, 10))
+            t = t[:i] + t[i:j].upper() + t[j:]
+        else:
+            t = t[:i] + hrand_text(rng, rng.randint(1, 6)) + t[i + 1:]
+    return t
+
+
+def hosts_shapes(rng, names, size, lines):
+    """the long-input families at a given scale: `names` names on one line, `size` characters in one token /
+    comment / run, `lines` short lines"""
+    seps = [" ", "\t", "\r", "\x0b", " \t "]
+    out = []
+    for k, sep in enumerate(seps[:3] if names >= 50000 else seps):
+        out.append(("many-names", "1.2.3.4" + (sep + "a") * names))
+        out.append(("many-names", "::1" + sep + sep.join("n%d.lan" % i for i in range(names)) + "\n10.0.0.1 tail\n"))
+    out += [
+        ("many-names", "10.0.0.1 " + " ".join(["h"] * names) + " # trailing comment"),
+        ("many-names", "10.0.0.1 " + " ".join("h%d" % (i % 50) for i in range(names)) + "# glued comment é"),
+        ("many-names", "1.2.3.4 " + "x " * names + "a..b"),
+        ("many-names", "1.2.3.4 " + "x " * names + "é"),
+        ("many-names", "1.2.3.4 " + "x " * names + "%"),
+        ("many-names", "999.2.3.4 " + "x " * names),
+        ("many-names", "fe80::1%eth0 " + "x " * names),
+        ("many-names", "# first\n\n1.2.3.4 " + "A. " * names + "\n::1 b\n"),
+        ("lone-cr", "1.2.3.4 a\r" * (names // 2)),
+        ("lone-cr", "1.2.3.4 a\r\r" * (names // 2) + "\n1.2.3.5 a\r\n"),
+        ("nul", "1.2.3.4 " + "\x00 " * names),
+        ("nul", "1.2.3.4 a\x00b " * (names // 2)),
+        ("long-name", "1.2.3.4 " + "a" * size),
+        ("long-name", "1.2.3.4 " + "a." * (size // 2)),
+        ("long-name", "1.2.3.4 ok " + "." * size),
+        ("long-name", "1.2.3.4 " + ("b" * 63 + ".") * (size // 64)),
+        ("long-comment", "1.2.3.4 a #" + "c" * size + "\n::1 b\n"),
+        ("long-comment", "#" + "é" * (size // 2)),
+        ("long-comment", "1.2.3.4 a#" + "# \x00\r中" * (size // 5)),
+        ("long-ws", " " * size + "1.2.3.4 a"),
+        ("long-ws", "1.2.3.4" + "\t" * size + "a" + " " * size),
+        ("long-ws", "\r" * size),
+        ("long-addr", "1" * size + " a"),
+        ("long-addr", "1:" * (size // 2) + " a"),
+        ("long-addr", "1" * size),
+        ("nul", "\x00" * size),
+        ("many-lines", "1.2.3.4 a\n" * lines),
+        ("many-lines", "".join("10.%d.%d.%d h%d\n" % ((i >> 16) & 255, (i >> 8) & 255, i & 255, i) for i in range(lines))),
+        ("many-lines", "\n" * lines),
+        ("many-lines", "\r\n" * lines + "1.2.3.4 a"),
+        ("many-lines", "#\n" * lines + "zzz x"),
+    ]
+    return out
+
+
+def hosts_texts(rng, tier):
+    """-> list of (family, text); the very large ones are spread evenly over the list (the streams are sharded)"""
+    from . import p_c14
+    small = []
+    for t in p_c14.CORPUS:
+        small.append(("corpus", t))
+    for t in ["\x00", "\r", "\r\r\n", "1.2.3.4\ra", "1.2.3.4 a\rb\rc", "1.2.3.4 a\x00b", "\x00 1.2.3.4 a", "1.2.3.4\x00 a", "#\x00", "\ufeff1.2.3.4 a",
+              "1.2.3.4 a ::1 b", "1.2.3.4 a\x85b", "1.2.3.4\u00a0a", "1.2.3.4 \U0001F600", "%", "%%", "# é\né", "1.2.3.4 a #\n\n#\n",
+              "::1%é a", "1.2.3.4 " + "a" * 63 + "." + "b" * 64, "1.2.3.4 " + ("a" * 63 + ".") * 4, "1.2.3.4 " + ("a." * 127), "1.2.3.4 " + ("a." * 128)]:
+        small.append(("corpus", t))
+    # the long-input families at model scale
+    for scale in ((200, 2000, 500), (800, 5000, 10000)):
+        for fam, t in hosts_shapes(rng, *scale):
+            small.append((fam, t))
+    n = 600 if tier == "quick" else 60000
+    while len(small) < n:
+        r = rng.random()
+        if r < 0.3:
+            small.append(("random", hrand_text(rng, rng.choice([1, 2, 3, 5, 8, 13, 30, 80, 300]))))
+        elif r < 0.9:
+            small.append(("mutated", hmutate(rng, p_c14.rand_file(rng, rng.choice([0.0, 0.2, 0.5])))))
+        else:
+            small.append(("valid", p_c14.rand_file(rng, 0.0)))
+    big = []
+    if tier == "quick":
+        sh = hosts_shapes(rng, 100000, 1 << 20, 100000)
+        # a handful: one of each kind of size
+        pick = {"many-names": [0, 1, 7, 8, 9], "lone-cr": [0], "nul": [0], "long-name": [0, 1], "long-comment": [0, 1], "long-ws": [0],
+                "long-addr": [0], "many-lines": [0, 1]}
+        seen = {}
+        for fam, t in sh:
+            k = seen.get(fam, 0)
+            seen[fam] = k + 1
+            if k in pick.get(fam, []):
+                big.append((fam, t))
+        big.append(("many-names", "1.2.3.4" + " a" * 10000))
+        big.append(("many-names", "1.2.3.4" + "\ta.b" * 30000))
+    else:
+        for names, size, lines in ((10000, 1 << 16, 10000), (20000, 1 << 18, 50000), (50000, 1 << 20, 100000), (100000, 1 << 20, 200000),
+                                   (200000, 1 << 21, 400000), (500000, 1 << 22, 1000000)):
+            big += hosts_shapes(rng, names, size, lines)
+    out = list(small)
+    step = max(1, len(out) // (len(big) + 1))
+    for i, b in enumerate(big):
+        out.insert(min(len(out), (i + 1) * step + i), b)
+    return out
+
+
+def run_all(binary, lines, run_dir, tag, nshards, env=None, timeout=900):
+    """core.run_sharded, then again over the cases a dead driver did not reach, until every case has its own outcome"""
+    outs = core.run_sharded(binary, lines, run_dir, tag, nshards=nshards, env=env, timeout=timeout)
+    for rnd in range(40):
+        idx = [i for i, o in enumerate(outs) if o == "DRIVER-DIED-AFTER"]
+        if not idx:
+            break
+        sub = core.run_sharded(binary, [lines[i] for i in idx], run_dir, "%s-again%d" % (tag, rnd),
+                               nshards=max(1, min(nshards, len(idx) // 20)), env=env, timeout=timeout)
+        for i, o in zip(idx, sub):
+            outs[i] = o
+    return outs
+
+
+def crashed(out):
+    return out in ("Panic", "Hang") or out.startswith("DRIVER-DIED") or out.startswith("IMPL-EXN")
+
+
+def extra_hosts(ctx, fails, info):
+    from . import p_c14
+    tier = ctx["tier"]
+    texts = hosts_texts(ctx["rng"], tier)
+    lines = ["hosts P " + text_tok(t) for _, t in texts]
+    budget = MODEL_BUDGET_S[tier]
+    with_model = [i for i, (_, t) in enumerate(texts) if hosts_model_seconds(t) <= budget]
+    stream_timeout = 600 if tier == "quick" else 3000
+    box = {}
+    th = threading.Thread(target=lambda: box.update(m=run_all(core.model_driver_path("hosts"), [lines[i] for i in with_model], ctx["run_dir"],
+                                                              "c17hosts-model", 12, timeout=stream_timeout)))
+    th.start()
+    iouts = run_all(core.impl_driver_path("hosts"), lines, ctx["run_dir"], "c17hosts-impl", 8, timeout=stream_timeout)
+    refs = {i: p_c14.read_hosts(t) for i, (_, t) in enumerate(texts) if i not in set(with_model)}
+    th.join()
+    mouts = dict(zip(with_model, box.get("m") or ["MODEL-RUN-FAILED"] * len(with_model)))
+    st = {"cases": len(lines), "model_compared": 0, "reference_compared": 0, "unjudged_beyond_model_budget": 0, "disagreements": 0,
+          "largest_text_chars": max(len(t) for _, t in texts), "largest_model_text_chars": max([len(texts[i][1]) for i in with_model] or [0]),
+          "model_budget_s": budget, "families": {}}
+    seen = set()
+    distinct = 0
+    for i, ((fam, t), line, io) in enumerate(zip(texts, lines, iouts)):
+        cls = io.split(":")[1] if io.startswith("Err:") else io.split(":")[0].split(" ")[0]
+        key = "%s -> %s" % (fam, cls)
+        st["families"][key] = st["families"].get(key, 0) + 1
+        if line not in seen:
+            seen.add(line)
+            if t:
+                distinct += 1
+        mo = mouts.get(i)
+        if not (io.startswith("Ok:") or io.startswith("Err:")):
+            fails.append(core.Failure("hosts-parser-crash", "Hosts::deserialise did not terminate with a result or an error on a %s input of %d "
+                                      "characters (2 MiB thread stack): %s" % (fam, len(t), core.trunc(io, 80)), core.trunc(line, 1 << 20), core.trunc(io, 200),
+                                      core.trunc(mo, 200) if mo is not None else None))
+            continue
+        if mo is not None:
+            st["model_compared"] += 1
+            if mo != io:
+                st["disagreements"] += 1
+                if st["disagreements"] <= 3:
+                    fails.append(core.Failure("hosts-correspondence", "model and implementation of Hosts::deserialise disagree (%s input)" % fam,
+                                              core.trunc(line, 4000), core.trunc(io, 300), core.trunc(mo, 300), found_input=False))
+            continue
+        # beyond the model's budget: the linear python reading of hosts(5) (vlib/p_c14.py), where it is unambiguous
+        ref = refs[i]
+        if ref[0] == "err" or (ref[0] == "ok" and not ref[3] and not ref[4]):
+            st["reference_compared"] += 1
+            f = p_c14.check_parse(ref, io.startswith("Err:"), io[3:] if io.startswith("Ok:") else None, "deserialise")
+            if f is not None:
+                fails.append(core.Failure("hosts-large-" + f[0], f[1], core.trunc(line, 4000), core.trunc(io, 300), None))
+        else:
+            st["unjudged_beyond_model_budget"] += 1
+    info["hosts"] = st
+    return len(lines), distinct
+
+
+# ---- loader ---------------------------------------------------------------------------------------
+
+Z_HEAD = "$ORIGIN example.com.\n@ 300 IN SOA ns admin 1 2 3 4 5\nwww 300 IN A 10.0.0.1\n"
+H_HEAD = "127.0.0.1 localhost\n10.0.0.1 gw.lan gw\n"
+PAD = "abcdefghijklmnopqrstuvwxyz0123456789-"
+
+
+def pad(rng, n):
+    return "".join(rng.choice(PAD) for _ in range(n))
+
+
+def offenders(rng, width):
+    """a non-white-space character of `width` UTF-8 bytes (rejected by both parsers outside comments)"""
+    return rng.choice([c for c in MB_CHARS[width] if not c.isspace() or c == "\ufeff"])
+
+
+def loader_texts(rng, tier):
+    """-> list of (role 'z'|'h', family, text or bytes).  X is the character the parser will complain about,
+    Y are further multi-byte characters at a swept distance d before / after it: on the same line after it,
+    on the same line before it where the grammar allows (multi-byte white space in zone files, the same
+    character inside the skipped part of a '%' line in hosts files), and around an earlier harmless
+    occurrence of X inside a comment."""
+    out = []
+    dmax = 24 if tier == "quick" else 200
+    widths = (2, 3, 4)
+    k = 0
+    for d in range(0, dmax + 1):
+        for wy in widths:
+            k += 1
+            wx = widths[(d + k) % 3]
+            X = offenders(rng, wx)
+            Y = rng.choice(MB_CHARS[wy])
+            Yw = rng.choice([c for w in widths for c in MB_CHARS[w] if c.isspace()])          # multi-byte white space
+            lead = pad(rng, rng.randint(0, 12))
+            it = []
+            # same line, after the offending character
+            it.append(("z", "after", Z_HEAD + "t%s 300 IN TXT %s%s%s%s%s\n" % (lead, pad(rng, 1), X, pad(rng, d), Y, pad(rng, rng.randint(0, 30)))))
+            it.append(("h", "after", H_HEAD + "10.0.0.12 %sd%s%s%s.lan %s\n" % (lead, X, pad(rng, d), Y, pad(rng, rng.randint(0, 30)))))
+            # same line, before it
+            it.append(("z", "before", Z_HEAD + "t%s 300 IN TXT a%s%s %s\n" % (lead, Yw, pad(rng, d), X)))
+            it.append(("z", "before", Z_HEAD + "t 300 IN TXT ( a ; %s%s%s\n %sb%s )\n" % (Y, pad(rng, d), X, pad(rng, d), X)))
+            # an earlier harmless occurrence of the same character with multi-byte neighbours on both sides
+            d2 = d if k % 2 else rng.randint(0, dmax)
+            com = "%s%s%s%s%s%s" % (pad(rng, rng.randint(0, 20)), Y, pad(rng, d), X, pad(rng, d2), rng.choice(MB_CHARS[widths[(k + 1) % 3]]))
+            it.append(("z", "comment-first", "; " + com + " end\n" + Z_HEAD + "bad 300 IN TXT x" + X + "\n"))
+            it.append(("z", "comment-first", Z_HEAD + "mail 300 IN MX 10 www ; " + com + "\nb" + X + "d 300 IN A 10.0.0.2\n"))
+            it.append(("h", "comment-first", "# " + com + " end\n" + H_HEAD + "10.0.0.2 h" + X + ".lan\n"))
+            it.append(("h", "comment-first", H_HEAD + "10.0.0.3 printer # " + com + "\n10.0.0.2 " + X + "\n"))
+            it.append(("h", "percent-first", "fe80::1%eth0 " + com + "\n" + H_HEAD + "10.0.0.2 h" + X + "\n"))
+            # unbalanced parentheses / quotes with multi-byte text around them
+            it.append(("z", "paren", Z_HEAD + "p 300 IN A 10.0.0.3 ) ;%s%s%s\n" % (pad(rng, d), Y, pad(rng, 5))))
+            it.append(("z", "paren", "; %s%s(%s%s)\n" % (Y, pad(rng, d), pad(rng, d2), Y) + Z_HEAD + "p 300 IN TXT ( a ( b )\n"))
+            it.append(("z", "paren", "; %s%s)%s%s\n" % (Y, pad(rng, d), pad(rng, d2), Y) + Z_HEAD + "p 300 IN TXT a ) b\n"))
+            it.append(("z", "quote", Z_HEAD + "q 300 IN TXT \"%s%s%s%s\n" % (pad(rng, d), X, pad(rng, d2), Y)))
+            out += it if tier != "quick" else it[:2] + [e for j, e in enumerate(it[2:]) if (j + d) % 3 == 0]
+    words = ["münchen", "köln", "düsseldorf", "österreich", "zürich", "büro", "café", "日本語", "中文网",
+             "россия", "\U0001F600\U0001F600", "naïve", "€€€", "lan", "host", "printer", "www"]
+    nreal = 30 if tier == "quick" else 4000
+    for _ in range(nreal):
+        ws = [rng.choice(words) for _ in range(rng.randint(1, 6))]
+        out.append(("h", "realistic", ("# " + " ".join(rng.choice(words) for _ in range(rng.randint(0, 5))) + "\n" if rng.random() < 0.5 else "")
+                    + H_HEAD + "10.0.0.%d %s\n" % (rng.randint(1, 254), " ".join(w + ".lan" for w in ws))))
+        out.append(("z", "realistic", ("; " + " ".join(rng.choice(words) for _ in range(rng.randint(0, 5))) + "\n" if rng.random() < 0.5 else "")
+                    + Z_HEAD + "%s 300 IN TXT %s\n" % (rng.choice(["txt", rng.choice(words)]), " ".join(ws))))
+    # text that is wrong without any non-ASCII character
+    for t in ["www 300 IN A 10.0.0.1 )\n", "www 300 IN A ( 10.0.0.1\n", "( (\n", ")\n", "(", "www 300 IN TXT \"abc\n", "\"", "www 300 IN TXT \\",
+              "www 300 IN TXT \\25", "$INCLUDE x\n", "\x00\n", "www.example.com. 300 IN A 1.2.3.4 \x00\n", "a b c\n", "\ufeff" + Z_HEAD]:
+        out.append(("z", "ascii-bad", t))
+    for t in ["999.1.1.1 h\n", "1.2.3.4 a..b\n", "zzz h\n", "\x00 h\n", "1.2.3.4 " + "a" * 64 + "\n", "\ufeff" + H_HEAD, "1.2.3.4 a\ré\n"]:
+        out.append(("h", "ascii-bad", t))
+    # mutated files
+    from . import p_c14
+    nmut = 40 if tier == "quick" else 6000
+    for _ in range(nmut):
+        g = zg.Gen(rng, nasty=rng.choice([0.0, 0.2]))
+        t = mutate(rng, zg.render(rng, g.file(), zg.STYLE_RICH))
+        out.append(("z", "mutated", inject(rng, t)))
+        out.append(("h", "mutated", inject(rng, hmutate(rng, p_c14.rand_file(rng, 0.2)))))
+    # binary garbage
+    ngarb = 30 if tier == "quick" else 2000
+    for _ in range(ngarb):
+        n = rng.choice([1, 2, 3, 8, 33, 200, 5000])
+        raw = bytes(rng.randrange(256) for _ in range(n))
+        if rng.random() < 0.5:
+            raw = rng.choice([Z_HEAD, H_HEAD]).encode() + raw
+        out.append((rng.choice("zh"), "binary", raw))
+    for raw in [b"\xff", b"\xc3", b"\xe4\xb8", b"\xf0\x9f\x98", b"\xed\xa0\x80", b"\xc0\xaf", b"\xf4\x90\x80\x80", Z_HEAD.encode() + b"\x80",
+                "t 300 IN TXT 中文".encode()[:-1], b"\xef\xbb\xbf", b"\xff\xfe1\x00"]:
+        out.append(("z", "binary", raw))
+        out.append(("h", "binary", raw))
+    # one larger file of each role (lines kept short: the hosts model is quadratic in the line length)
+    body = "".join("; %s %s %s\n" % (rng.choice(words), pad(rng, rng.randint(0, 40)), rng.choice(words)) for _ in range(1500))
+    out.append(("z", "large", body + Z_HEAD + "t 300 IN TXT " + "日本語のテキスト\n"))
+    out.append(("h", "large", body.replace(";", "#") + H_HEAD + "10.0.0.9 düsseldorf.lan österreich.lan\n"))
+    return out
+
+
+def inject(rng, t):
+    """sprinkle multi-byte characters over a text"""
+    for _ in range(rng.choice([0, 1, 2, 4, 8])):
+        i = rng.randint(0, len(t))
+        t = t[:i] + rng.choice(MB_CHARS[rng.choice((2, 3, 4))]) + t[i:]
+    return t
+
+
+def loader_case(cg, role, obj, placement, tag):
+    goodz = cg.ZoneFile(("example", "com"), (1, 300), [(False, ("www", "example", "com"), cg.A, 300, ("a", 1))])
+    goodh = cg.HostsFile([(("h1",), "a", 0x0A000001)])
+    zexp, zdirs, hexp, hdirs = [], [], [], []
+    exp, dirs, good, ext = (zexp, zdirs, goodz, "zone") if role == "z" else (hexp, hdirs, goodh, "hosts")
+    if placement == 0:
+        exp.append(("bad." + ext, obj))
+    elif placement == 1:
+        exp += [("good." + ext, good), ("bad." + ext, obj)]
+        (hexp if role == "z" else zexp).append(("other", goodh if role == "z" else goodz))
+    elif placement == 2:
+        dirs.append((role + "d", [("10." + ext, good), ("9." + ext, obj)]))
+    else:
+        dirs.append((role + "d", [("a." + ext, obj), ("sub.d", "S")]))
+        exp.append(("good." + ext, good))
+    qs = [((), cg.SOA), (("www", "example", "com"), cg.A), (("h1",), cg.A)]
+    return cg.assemble_fixed(zexp, zdirs, hexp, hdirs, qs, tag)
+
+
+def extra_loader(ctx, fails, info):
+    from . import configgen as cg
+    tier = ctx["tier"]
+    rng = ctx["rng"]
+    texts = loader_texts(rng, tier)
+    # which texts do the parser models reject?
+    plines, pidx = {"z": [], "h": []}, {"z": [], "h": []}
+    for i, (role, fam, t) in enumerate(texts):
+        if isinstance(t, bytes):
+            try:
+                t = t.decode("utf-8")
+                texts[i] = (role, fam, t)
+            except UnicodeDecodeError:
+                continue
+        plines[role].append(("zonefile P %s loader" if role == "z" else "hosts P %s") % tok.text(t))
+        pidx[role].append(i)
+    verdict = {}
+    for role, drv in (("z", "zonefile"), ("h", "hosts")):
+        outs = run_all(core.model_driver_path(drv), plines[role], ctx["run_dir"], "c17loader-parse-" + role, 8)
+        for i, o in zip(pidx[role], outs):
+            verdict[i] = o
+    cases, meta = [], []
+    st = {"bad_files": 0, "valid_texts_not_used": 0, "parser_model_trouble": 0, "families": {}}
+    for i, (role, fam, t) in enumerate(texts):
+        if isinstance(t, bytes):
+            obj = cg.BadFile("b", t)
+        else:
+            v = verdict.get(i, "?")
+            if v.startswith("Ok:"):
+                st["valid_texts_not_used"] += 1        # the config model needs the data of a valid file; C12 covers those
+                continue
+            if not v.startswith("Err:"):
+                st["parser_model_trouble"] += 1
+                fails.append(core.Failure("parser-model", "the parser model gave neither Ok nor Err: %s" % core.trunc(v, 100),
+                                          plines[role][pidx[role].index(i)], None, v, found_input=False))
+                continue
+            obj = cg.BadFile("g", t.encode("utf-8"))
+        st["bad_files"] += 1
+        cases.append(loader_case(cg, role, obj, len(cases) % 4, "c17-%s-%s:none" % (role, fam)))
+        meta.append((role, fam, "none"))
+    # empty files, a directory where a file should be, a missing file
+    ap, nq = cg.DUMP_APEXES, [((), cg.SOA)]
+    emptyz = type("E", (), {"content": staticmethod(lambda: "Z-@-@_%-")})
+    emptyh = type("E", (), {"content": staticmethod(lambda: "H_%-")})
+    wsz = type("E", (), {"content": staticmethod(lambda: "Z-@-@_%" + " \n\t\n; c\n\n".encode().hex())})
+    wsh = type("E", (), {"content": staticmethod(lambda: "H_%" + " \n\t\n# c\n\n".encode().hex())})
+    for tag, z, zd, a, ad, files, dirs, want in [
+            ("empty-zone", ["e.zone"], [], [], [], [("e.zone", emptyz)], [], "some"),
+            ("empty-hosts", [], [], ["e.hosts"], [], [("e.hosts", emptyh)], [], "some"),
+            ("empty-both-in-dirs", [], ["zd"], [], ["hd"], [], [("zd", [("a", emptyz), ("b", wsz)]), ("hd", [("a", emptyh), ("b", wsh)])], "some"),
+            ("blank-zone", ["e.zone"], [], ["e.hosts"], [], [("e.zone", wsz), ("e.hosts", wsh)], [], "some"),
+            ("dir-as-zone-file", ["zd"], [], [], [], [], [("zd", [])], "none"),
+            ("dir-as-hosts-file", [], [], ["hd"], [], [], [("hd", [("a", emptyh)])], "none"),
+            ("dir-as-file-twice", ["d", "d"], [], ["d"], [], [], [("d", [])], "none"),
+            ("file-as-zone-dir", [], ["e.zone"], [], [], [("e.zone", emptyz)], [], "none"),
+            ("file-as-hosts-dir", [], [], [], ["e.hosts"], [("e.hosts", emptyh)], [], "none"),
+            ("missing-zone-file", ["gone"], [], [], [], [], [], "none"),
+            ("missing-hosts-file", [], [], ["gone"], [], [], [], "none"),
+            ("dangling-links", [], ["zd"], [], ["hd"], [], [("zd", [("x", cg.BadFile("m"))]), ("hd", [("x", cg.BadFile("m"))])], "none"),
+            ("nothing", [], [], [], [], [], [], "some")]:
+        cases.append(cg.load_case(cg.args_tok(z, zd, a, ad), cg.fs_tok(files, dirs), ap, nq, "c17-fs-%s:%s" % (tag, want)))
+        meta.append(("fs", tag, want))
+    env = {"VERIF_CASE_STACK": str(2 << 20), "VERIF_CONFIG_SCRATCH": os.path.join(ctx["run_dir"], "c17-config-scratch")}
+    mouts = run_all(core.model_driver_path("config"), cases, ctx["run_dir"], "c17loader-model", 4)
+    iouts = run_all(core.impl_driver_path("config"), cases, ctx["run_dir"], "c17loader-impl", 8, env=env)
+    dis = 0
+    for c, (role, fam, want), mo, io in zip(cases, meta, mouts, iouts):
+        key = "%s %s -> %s" % (role, fam, io if len(io) < 12 else "Some")
+        st["families"][key] = st["families"].get(key, 0) + 1
+        if crashed(io):
+            fails.append(core.Failure("loader-crash", "load_zone_configuration did not return on a %s (%s): %s instead of %s"
+                                      % ({"z": "bad zone file", "h": "bad hosts file", "fs": "file-system defect"}[role], fam, core.trunc(io, 80),
+                                         "None" if want == "none" else "a configuration"), c, core.trunc(io, 200), core.trunc(mo, 200)))
+        elif want == "none" and io != "None":
+            fails.append(core.Failure("loader-bad-file-accepted", "an unreadable / unparsable %s file (%s) did not make load_zone_configuration return None"
+                                      % (role, fam), c, core.trunc(io, 200), core.trunc(mo, 200)))
+        elif want == "some" and io == "None":
+            fails.append(core.Failure("loader-good-config-rejected", "load_zone_configuration returned None for %s" % fam, c, io, core.trunc(mo, 200)))
+        elif mo != io:
+            dis += 1
+            if dis <= 3:
+                fails.append(core.Failure("loader-correspondence", "config model and load_zone_configuration disagree (%s %s)" % (role, fam), c,
+                                          core.trunc(io, 300), core.trunc(mo, 300), found_input=False))
+    st["cases"] = len(cases)
+    st["disagreements"] = dis
+    info["loader"] = st
+    return len(cases), len(set(cases))
+
+
+def extra(ctx):
+    import time
+    fails, info = [], {}
+    for what, name in (("model", "hosts"), ("impl", "hosts"), ("model", "config"), ("impl", "config")):
+        f = core.build_model_driver if what == "model" else core.build_impl_driver
+        ok, out = f(name)
+        if not ok:
+            return ([core.Failure("c17-driver-build", "%s driver of the %s stream failed to build: %s" % (what, name, core.trunc(out[-800:], 800)),
+                                  found_input=False)], {})
+    t0 = time.time()
+    n1, d1 = extra_hosts(ctx, fails, info)
+    info["hosts"]["wall_s"] = round(time.time() - t0, 1)
+    t0 = time.time()
+    n2, d2 = extra_loader(ctx, fails, info)
+    info["loader"]["wall_s"] = round(time.time() - t0, 1)
+    info["evaluations"] = n1 + n2
+    info["distinct_nontrivial"] = d1 + d2
+    return fails, info
